@@ -360,7 +360,7 @@ func init() {
 func init() {
 	register(&PropSpec{
 		ID:   "C07",
-		Pkgs: []string{"./jrpc2"},
+		Pkgs: []string{"./jrpc2", "./eth"},
 		Runs: func(tier string) []HRun {
 			var rs []HRun
 			for plan := 0; plan < 12; plan++ {
@@ -387,11 +387,16 @@ func init() {
 				}
 			}
 			rs = append(rs, HRun{Pkg: "./jrpc2", Fn: "ZZ_C07_Do"})
+			// a block number that does not fit in 64 bits is an error, never a wrapped number
+			for _, n := range []int{20, 21, 22} {
+				rs = append(rs, HRun{Pkg: "./eth", Fn: "ZZ_C17_Uint64", Params: []int{n}, Label: "over-long-quantity-is-rejected"})
+			}
 			rs = append(rs, HRun{Pkg: "./jrpc2", Fn: "ZZ_C07_HeadHash", Params: []int{0}}, HRun{Pkg: "./jrpc2", Fn: "ZZ_C07_HeadHash", Params: []int{1}})
 			return rs
 		},
 		Assumptions: []string{
 			"the node is cut at (*Client).do (harness/jrpc2/stub.go, compiled natively for replay with the same cut): after a syntactically valid body the decoder fills the destination as contract R1 of DESIGN 3.1 says (pre-sized slices keep pointer fields, null -> nil pointer, shorter/longer batch truncates/appends, absent member leaves the field)",
+			"quantities are decoded by eth.Uint64 before the client sees them: that a hex quantity of more than 16 digits that does not fit in 64 bits is an error (not a wrapped number that could pass for the requested block) is decided by the ZZ_C17_Uint64 runs at 16-18 digits",
 			"every decoded value is solver-quantified: block numbers, hashes, parent hashes, transaction/log indices, item block numbers, error codes (0 = no error member), transport failure",
 			"structural corruptions (null result, batch one shorter / one longer, 0 or 2 items instead of 1, block without transactions) are case-split under a budget of 1 (quick) / 2 (thorough) per request",
 			"a log entry always carries its own object (logIndex/address/topics/data not all absent)",
